@@ -575,7 +575,9 @@ function getArgumentValueChunk(argumentValue: ArgumentValue): string {
       );
     }
     case 'Literal': {
-      return 'l_' + argumentValue.value;
+      // a minus sign cannot appear in a GraphQL alias; `n` stands for it
+      // (this must be kept in sync with to_alias_str_chunk in the compiler)
+      return 'l_' + String(argumentValue.value).replaceAll('-', 'n');
     }
     case 'Variable': {
       return 'v_' + argumentValue.name;
